@@ -46,7 +46,7 @@ func init() {
 		Run: runC14, Workers: 16, GOMAXPROCS: 4,
 		QuickTimeout: 8 * time.Minute, ThoroughTimeout: 40 * time.Minute,
 		QuickFloor: 60, ThoroughFloor: 1500,
-		RequiredCounters: []string{"settle_points_judged", "forbidden_rerun_windows", "required_reruns_seen", "waitexited_returns_judged", "exit_callbacks_checked", "backoff_resets_seen", "gated_timer_templates", "restart_in_backoff_templates"},
+		RequiredCounters: []string{"settle_points_judged", "forbidden_rerun_windows", "required_reruns_seen", "waitexited_returns_judged", "exit_callbacks_checked", "backoff_resets_seen", "gated_timer_templates", "restart_in_backoff_templates", "constructor_templates"},
 		Rule: "each case is a sequential history of 14-64 operations over SetRoutine/SetState/SetContext(same,new,nil; restart on/off)/RestartRoutine/ClearContext with scripted instance outcomes (success, unique error, run until cancelled), with and without a recording 1 ms backoff; after every operation the case settles " +
 			"(timers fired, goroutines quiescent) and the number of instance entries is compared with what the documented machine requires or forbids; WaitExited is issued at random points with both returnIfNotRunning values; " +
 			"non-trivial = the history contains at least one success, one failure and one restart-class call; distinct = distinct operation/outcome sequences",
@@ -713,6 +713,18 @@ func c05Case(c *mon.Case, state, retry, concurrent bool) {
 	nOps := 10 + r.IntN(40)
 	ctxOps := func(actor string, rr interface{ IntN(int) int }, n int) {
 		for i := 0; i < n; i++ {
+			if rr.IntN(8) == 0 {
+				// a waiter whose own context is already done: it gets context.Canceled (or the exit status) and leaves the container alone
+				dctx, dcancel := context.WithCancel(context.Background())
+				dcancel()
+				if rr.IntN(2) == 0 {
+					var dc2 context.CancelFunc
+					dctx, dc2 = context.WithDeadline(context.Background(), time.Unix(1, 0))
+					defer dc2()
+				}
+				c.Count("waitexited_with_done_context", 1)
+				_ = w.waitExited(dctx, rr.IntN(2) == 0, nil)
+			}
 			enterCall()
 			ctxMu.Lock()
 			switch k := rr.IntN(10); {
@@ -966,6 +978,7 @@ func runC14(w *mon.Worker) {
 		state := i%2 == 1
 		w.Case("stale-timer", map[string]any{"state": state}, func(c *mon.Case) { c14TimerGateCase(c, state) })
 		w.Case("restart-in-backoff", map[string]any{"state": state}, func(c *mon.Case) { c14RestartInBackoffCase(c, state) })
+		w.Case("constructors", nil, c14ConstructorsCase)
 	}
 }
 
@@ -1640,4 +1653,107 @@ func c14RestartInBackoffCase(c *mon.Case, state bool) {
 		}
 	}
 	w.clearContext("d")
+}
+
+// c14ConstructorsCase: every documented constructor honours its options. The routine fails once and then succeeds;
+// with retry configured it is run exactly twice, and each exit callback sees the error and then nil.
+func c14ConstructorsCase(c *mon.Case) {
+	r := c.Rng
+	kind := r.IntN(6)
+	retryKind := r.IntN(2)
+	var mu sync.Mutex
+	var cb1, cb2 []error
+	var entries atomic.Int64
+	opts := []routine.Option{
+		routine.WithExitCb(func(err error) { mu.Lock(); cb1 = append(cb1, err); mu.Unlock() }),
+		routine.WithExitCb(func(err error) { mu.Lock(); cb2 = append(cb2, err); mu.Unlock() }),
+	}
+	if retryKind == 0 {
+		opts = append(opts, routine.WithBackoff(cbackoff.NewConstantBackOff(rtBackoff)))
+	} else {
+		opts = append(opts, routine.WithRetry(&ubackoff.Backoff{BackoffKind: ubackoff.BackoffKind_BackoffKind_CONSTANT, Constant: &ubackoff.Constant{Interval: 1}}))
+	}
+	if r.IntN(2) == 0 {
+		// option order must not matter
+		opts[0], opts[2] = opts[2], opts[0]
+	}
+	errFirst := fmt.Errorf("error-inst-0")
+	run := func(ctx context.Context) error {
+		n := entries.Add(1)
+		c.Rec("inst", fmt.Sprint("enter ", n), nil)
+		if n == 1 {
+			return errFirst
+		}
+		return nil
+	}
+	ctx, cancel := context.WithCancel(context.Background())
+	defer cancel()
+	names := []string{"NewRoutineContainer", "NewRoutineContainerWithLogger", "NewStateRoutineContainer", "NewStateRoutineContainerWithLogger", "NewStateRoutineContainerVT", "NewStateRoutineContainerWithLoggerVT"}
+	var clear func() bool
+	switch kind {
+	case 0, 1:
+		var rc *routine.RoutineContainer
+		if kind == 0 {
+			rc = routine.NewRoutineContainer(opts...)
+		} else {
+			rc = routine.NewRoutineContainerWithLogger(discardLogger(), opts...)
+		}
+		rc.SetRoutine(run)
+		rc.SetContext(ctx, false)
+		clear = rc.ClearContext
+	case 2, 3:
+		var src *routine.StateRoutineContainer[int]
+		if kind == 2 {
+			src = routine.NewStateRoutineContainer[int](nil, opts...)
+		} else {
+			src = routine.NewStateRoutineContainerWithLogger[int](nil, discardLogger(), opts...)
+		}
+		src.SetStateRoutine(func(ctx context.Context, st int) error { return run(ctx) })
+		src.SetState(7)
+		src.SetContext(ctx, false)
+		clear = src.ClearContext
+	default:
+		var src *routine.StateRoutineContainer[*ubackoff.Backoff]
+		if kind == 4 {
+			src = routine.NewStateRoutineContainerVT[*ubackoff.Backoff](opts...)
+		} else {
+			src = routine.NewStateRoutineContainerWithLoggerVT[*ubackoff.Backoff](discardLogger(), opts...)
+		}
+		src.SetStateRoutine(func(ctx context.Context, st *ubackoff.Backoff) error { return run(ctx) })
+		src.SetState(&ubackoff.Backoff{BackoffKind: ubackoff.BackoffKind_BackoffKind_CONSTANT})
+		// an equal (EqualVT) state must not restart the routine
+		src.SetState(&ubackoff.Backoff{BackoffKind: ubackoff.BackoffKind_BackoffKind_CONSTANT})
+		src.SetContext(ctx, false)
+		clear = src.ClearContext
+	}
+	c.Count("constructor_templates", 1)
+	c.NonTrivial()
+	c.Mix(uint64(kind)<<1 | uint64(retryKind))
+	prev := int64(-1)
+	for i := 0; i < 20; i++ {
+		if !mon.SettleTimers(rtBackoff, 30, 15*time.Millisecond, 10*time.Second) {
+			c.Inconclusive("no quiescence")
+			return
+		}
+		if n := entries.Load(); n == prev {
+			break
+		} else {
+			prev = n
+		}
+	}
+	mu.Lock()
+	g1, g2 := append([]error(nil), cb1...), append([]error(nil), cb2...)
+	mu.Unlock()
+	if n := entries.Load(); n != 2 {
+		sig := "failed-routine-not-retried"
+		if n > 2 {
+			sig = "routine-rerun-without-cause"
+		}
+		c.Violate("machine", sig, "%s with retry configured (kind %d): the routine fails once and then succeeds, so it must run exactly twice; it ran %d times", names[kind], retryKind, n)
+	}
+	okCb := func(g []error) bool { return len(g) == 2 && g[0] == errFirst && g[1] == nil }
+	if entries.Load() == 2 && (!okCb(g1) || !okCb(g2)) {
+		c.Violate("machine", "exit-callback-count", "%s: the two exit callbacks saw %v and %v, want [%v <nil>] each", names[kind], g1, g2, errFirst)
+	}
+	clear()
 }
